@@ -632,29 +632,35 @@ impl<'r> Lowerer<'r> {
     ) -> Value {
         let name = func.name;
 
-        let mut args = Vec::new();
+        // First evaluate the receiver and all arguments into temporaries that
+        // we still own. Evaluating a later argument can leave the function
+        // early (`return`, `?`) and then the earlier ones must be dropped by
+        // us, because the callee that would drop them is never called.
+        let mut owned = Vec::new();
         if let Some((receiver, ty)) = receiver {
             let ty = self.type_info.convert(&ty);
-            // This values will be dropped by the callee
-            let tmp = self.undropped_tmp();
-            self.vars.push((tmp.clone(), ty));
-
-            self.do_assign(Place::new(tmp.clone(), ty), ty, receiver);
-            args.push(tmp);
+            let var = self.assign_to_var(receiver, ty);
+            owned.push((var, ty));
         }
 
-        args.extend(arguments.iter().map(|a| {
+        for a in arguments {
             let ty = self.type_info.type_of(a);
             let ty = self.type_info.convert(&ty);
             let op = self.expr(a);
+            let var = self.assign_to_var(op, ty);
+            owned.push((var, ty));
+        }
 
+        // Now that nothing can go wrong anymore, hand them to the callee.
+        let mut args = Vec::new();
+        for (var, ty) in owned {
             // These values will be dropped by the callee
             let tmp = self.undropped_tmp();
             self.vars.push((tmp.clone(), ty));
 
-            self.do_assign(Place::new(tmp.clone(), ty), ty, op);
-            tmp
-        }));
+            self.do_assign(Place::new(tmp.clone(), ty), ty, Value::Move(var));
+            args.push(tmp);
+        }
 
         let mir_signature = ty::Signature {
             parameter_types: func
@@ -666,7 +672,9 @@ impl<'r> Lowerer<'r> {
             return_type: self.type_info.convert(&func.signature.return_type),
         };
 
-        match func.definition {
+        let return_type = mir_signature.return_type;
+
+        let call = match func.definition {
             FunctionDefinition::Runtime(func_ref) => {
                 let mut vtables = Vec::new();
                 for idx in &self.runtime.get_function(func_ref).vtables {
@@ -687,7 +695,12 @@ impl<'r> Lowerer<'r> {
                 args,
                 mir_signature,
             },
-        }
+        };
+
+        // The arguments now belong to the callee, so the call has to happen
+        // right here and not at some later point where the value is used.
+        let to = self.assign_to_var(call, return_type);
+        Value::Move(to)
     }
 
     fn enum_constructor(
